@@ -1857,8 +1857,11 @@ struct TemplateCore {
         return true;
     }
 
+    // Every level of parentheses is a level of recursion: deeper expressions are not expressions.
+    static constexpr SizeT32 MaxParenthesesDepth = 256U;
+
     inline static QExpressions parseExpressions(const Char_T *content, SizeT offset, const SizeT end_offset,
-                                                const LoopTag *loop_tag) {
+                                                const LoopTag *loop_tag, const SizeT32 depth = 0) {
         QExpressions exprs;
         QOperation   last_oper = QOperation::NoOp;
 
@@ -1867,7 +1870,7 @@ struct TemplateCore {
             const QOperation oper       = getOperation(content, offset, end_offset);
 
             if ((oper != QOperation::Error) &&
-                parseValue(exprs, oper, last_oper, content, num_offset, offset, loop_tag)) {
+                parseValue(exprs, oper, last_oper, content, num_offset, offset, loop_tag, depth)) {
                 ++offset;
 
                 if (oper < QOperation::Greater) {
@@ -1890,7 +1893,8 @@ struct TemplateCore {
     }
 
     static bool parseValue(QExpressions &exprs, const QOperation oper, const QOperation last_oper,
-                           const Char_T *content, SizeT offset, SizeT end_offset, const LoopTag *loop_tag) {
+                           const Char_T *content, SizeT offset, SizeT end_offset, const LoopTag *loop_tag,
+                           const SizeT32 depth) {
         using QOperationSymbol = QOperationSymbol_T<Char_T>;
 
         StringUtils::TrimLeft(content, offset, end_offset);
@@ -1899,18 +1903,22 @@ struct TemplateCore {
         if (offset < end_offset) {
             switch (content[offset]) {
                 case QOperationSymbol::ParenthesesStart: {
-                    ++offset;     // Drop (
-                    --end_offset; // Drop )
+                    if (depth < MaxParenthesesDepth) {
+                        ++offset;     // Drop (
+                        --end_offset; // Drop )
 
-                    if ((last_oper != oper) || (oper != QOperation::NoOp)) {
-                        const QExpression &expr =
-                            exprs.Insert(QExpression{parseExpressions(content, offset, end_offset, loop_tag), oper});
-                        return (expr.SubExpressions.Size() != 0);
+                        if ((last_oper != oper) || (oper != QOperation::NoOp)) {
+                            const QExpression &expr = exprs.Insert(QExpression{
+                                parseExpressions(content, offset, end_offset, loop_tag, (depth + 1U)), oper});
+                            return (expr.SubExpressions.Size() != 0);
+                        }
+
+                        // The entire expression is inside (...)
+                        exprs = parseExpressions(content, offset, end_offset, loop_tag, (depth + 1U));
+                        return (exprs.Size() != 0);
                     }
 
-                    // The entire expression is inside (...)
-                    exprs = parseExpressions(content, offset, end_offset, loop_tag);
-                    return (exprs.Size() != 0);
+                    break;
                 }
 
                 case QOperationSymbol::BracketStart: {
